@@ -197,6 +197,48 @@ def _poisson_skeleton(tree) -> tuple[list[str], str]:
     return toks, "translated"
 
 
+CHOOSE_EXPECTED = [
+    "if:notself.accelerations",
+    "if:notself.uniform_range",
+    "choice=self.rng.randint(0,len(self.accelerations))",
+    "acceleration=self.accelerations[choice]",
+    "if:self.center_fractionsisNone",
+    "center_fraction=self.center_fractions[choice]",
+    "return:(center_fraction,acceleration)",
+    "raise:NotImplementedError",
+]
+
+
+def choose_skeleton(tree) -> tuple[list[str], str]:
+    try:
+        fn = _method(tree, "BaseMaskFunc.choose_acceleration")
+    except Untranslatable as e:
+        return CHOOSE_EXPECTED, f"skipped: {e}"
+    norm = lambda n: ast.unparse(n).replace(" ", "")  # noqa: E731
+    toks = []
+
+    def walk(stmts):
+        for st in stmts:
+            if isinstance(st, ast.Expr) and isinstance(st.value, ast.Constant):
+                continue
+            if isinstance(st, ast.If):
+                toks.append("if:" + norm(st.test))
+                if not (len(st.body) == 1 and isinstance(st.body[0], ast.Return) and norm(st.body[0].value) in ("None", "acceleration")):
+                    walk(st.body)
+                walk(st.orelse)
+            elif isinstance(st, ast.Assign):
+                toks.append(norm(st.targets[0]) + "=" + norm(st.value))
+            elif isinstance(st, ast.Return):
+                toks.append("return:" + (norm(st.value) if st.value is not None else "None"))
+            elif isinstance(st, ast.Raise):
+                toks.append("raise:" + (norm(st.exc.func) if isinstance(st.exc, ast.Call) else norm(st.exc)))
+            else:
+                toks.append("?" + type(st).__name__)
+
+    walk(fn.body)
+    return toks, "translated"
+
+
 _INPLACE = {"fill", "put", "itemset", "resize", "sort", "partition", "setfield", "__imul__", "__iand__", "__ior__", "__isub__"}
 
 
@@ -304,6 +346,10 @@ def _extra():
         toks = POISSON_EXPECTED
     chunks.append("/-- break / raise skeleton of `VariableDensityPoissonMaskFunc.poisson` -/\n"
                   "def poissonSkeleton : List String := [\n" + ",\n".join("  " + _lean_str(t) for t in toks) + "]\n")
+    ctoks, st = choose_skeleton(tree) if tree is not None else (CHOOSE_EXPECTED, "skipped: unparsable")
+    status["choose_acceleration_skeleton"] = st
+    chunks.append("/-- skeleton of `BaseMaskFunc.choose_acceleration` -/\n"
+                  "def chooseSkeleton : List String := [\n" + ",\n".join("  " + _lean_str(t) for t in ctoks) + "]\n")
     post, st = poisson_post(tree)
     status["poisson_post_statements"] = st
     chunks.append("/-- statements of `poisson` after the last evaluation of `actual_acceleration` up to `return`: (text, modifies `mask`) -/\n"
